@@ -107,7 +107,7 @@ def bounded_flat_run(pack, pid, tier='quick'):
     the bus voltages are those of the power flow, and a short run stays at that point"""
     from contracts.packutil import native_guard
     name = '%s/andes/routines/tds.py:TDS.init;TDS.run/bounded:initialisation-is-an-equilibrium-of-the-power-flow-solution' % pid
-    cases = ['kundur/kundur_full.xlsx', 'ieee14/ieee14_full.xlsx', 'ieee14/ieee14_fload.json'] + (['ieee39/ieee39_full.xlsx', 'wecc/wecc_full.xlsx'] if tier == 'thorough' else [])
+    cases = ['kundur/kundur_full.xlsx', 'ieee14/ieee14_full.xlsx', 'ieee14/ieee14_fload.json', 'ieee14/ieee14_ieeevc2.xlsx'] + (['ieee39/ieee39_full.xlsx', 'wecc/wecc_full.xlsx'] if tier == 'thorough' else [])
 
     seen_known = []
 
